@@ -234,6 +234,25 @@ func RunDefine(r *rt.Run) error {
 			emit("lambda", length, first, t, bad)
 		}
 	}
+	// syntax errors at every distance from trailing multi-byte text (error messages quote a snippet of the
+	// script around the offending token)
+	{
+		var t tally
+		var bad []string
+		k := 0
+		for _, base := range []string{") ", "| ", "var x = ) ", "stream|from(", "stream\n|from()\n.measurement(", "var s = 'a' + + "} {
+			for _, tail := range []string{"é", "→", "😀", "é→😀", "aé", "😀b"} {
+				for pad := 0; pad <= 16; pad++ {
+					for _, sep := range []string{"// ", "'", ""} {
+						k++
+						defineOne(env, fmt.Sprintf("u%d", k), base+sep+strings.Repeat("a", pad)+tail, false, &t, &bad)
+						lambdaOne(base+sep+strings.Repeat("a", pad)+tail, &t, &bad)
+					}
+				}
+			}
+		}
+		emit("unicode-tail", 0, "syntax error before multi-byte text", t, bad)
+	}
 	nMut := 3000
 	if r.Thorough() {
 		nMut = 40000
